@@ -5,6 +5,13 @@
 //! implement exactly the subset of the std API that the code they are
 //! swapped into uses. Observationally they are finite maps/sets; iteration
 //! order is insertion order.
+//!
+//! Values that leave a container by being overwritten, removed or filtered
+//! out are leaked (`mem::forget`) instead of dropped, and `insert`/`remove`
+//! therefore return `None`: the drop glue of the fact values (enum variants
+//! carrying `String`s) is what makes a model checker's formula explode, and
+//! the code these containers are swapped into never looks at those return
+//! values. A leak is unobservable.
 
 use serde::{Deserialize, Serialize};
 
@@ -32,7 +39,9 @@ impl<K: PartialEq, V> HashMap<K, V> {
     pub fn insert(&mut self, key: K, value: V) -> Option<V> {
         for (k, v) in &mut self.items {
             if *k == key {
-                return Some(std::mem::replace(v, value));
+                std::mem::forget(std::mem::replace(v, value));
+                std::mem::forget(key);
+                return None;
             }
         }
         self.items.push((key, value));
@@ -41,11 +50,19 @@ impl<K: PartialEq, V> HashMap<K, V> {
 
     pub fn remove(&mut self, key: &K) -> Option<V> {
         let idx = self.items.iter().position(|(k, _)| k == key)?;
-        Some(self.items.remove(idx).1)
+        std::mem::forget(self.items.remove(idx));
+        None
     }
 
     pub fn retain<F: FnMut(&K, &mut V) -> bool>(&mut self, mut f: F) {
-        self.items.retain_mut(|(k, v)| f(k, v));
+        let old = std::mem::take(&mut self.items);
+        for (k, mut v) in old {
+            if f(&k, &mut v) {
+                self.items.push((k, v));
+            } else {
+                std::mem::forget((k, v));
+            }
+        }
     }
 
     #[must_use]
@@ -147,6 +164,7 @@ impl<T: PartialEq> HashSet<T> {
 
     pub fn insert(&mut self, item: T) -> bool {
         if self.items.contains(&item) {
+            std::mem::forget(item);
             false
         } else {
             self.items.push(item);
